@@ -2025,11 +2025,13 @@ def get_p_th_nearest(df_filt: pd.DataFrame, p_est: str = 'p_est') -> float:
     code_df = get_code_df(df_filt)
 
     # Estimate the threshold by where the order of the lines change.
+    # One line per code size: the 'code' column alone is the same for every
+    # size of a code family.
     p_est_df = pd.DataFrame({
-        code: dict(df_filt[df_filt['code'] == code][[
-            'error_rate', p_est
-        ]].values)
-        for code in code_df['code']
+        (code, n): dict(df_filt[
+            (df_filt['code'] == code) & (df_filt['n'] == n)
+        ][['error_rate', p_est]].values)
+        for code, n in zip(code_df['code'], code_df['n'])
     })
     p_est_df = p_est_df.sort_index()
 
